@@ -55,8 +55,11 @@ class RunnerProxy(object):
             st["depth"] -= 1
         ev["status"] = STATUS.get(status, status)
         ev["seq_end"] = len(recorder.TRACE)
-        if st.get("post") and st["depth"] == 0:
-            ev["post"] = st["post"]()
+        if st.get("post"):
+            if hasattr(self.tasker, "actives"):
+                ev["selfpost"] = framer_snapshot(self.tasker)
+            if st["depth"] == 0:
+                ev["post"] = st["post"]()
         return status
 
     def close(self):
